@@ -22,20 +22,20 @@ import (
 // cop is one concurrent operation: its input (fixed before the run), the
 // invoke/return stamps (scheduler step numbers) and its output.
 type cop struct {
-	Client int    `json:"client"`
-	Kind   string `json:"op"`
-	Pool   string `json:"pool,omitempty"`   // logical pool key ("P1", ...)
-	Branch string `json:"branch,omitempty"` // branch name
-	Other  string `json:"other,omitempty"`  // new name / parent branch
-	Objs   []string `json:"objs,omitempty"` // object ids (from the setup phase)
-	Pred   string `json:"pred,omitempty"`
-	Us     []int  `json:"us,omitempty"` // load: batch
-	At     string `json:"at,omitempty"`  // branch-create / revert: commit id
+	Client int      `json:"client"`
+	Kind   string   `json:"op"`
+	Pool   string   `json:"pool,omitempty"`   // logical pool key ("P1", ...)
+	Branch string   `json:"branch,omitempty"` // branch name
+	Other  string   `json:"other,omitempty"`  // new name / parent branch
+	Objs   []string `json:"objs,omitempty"`   // object ids (from the setup phase)
+	Pred   string   `json:"pred,omitempty"`
+	Us     []int    `json:"us,omitempty"` // load: batch
+	At     string   `json:"at,omitempty"` // branch-create / revert: commit id
 	// filled in by the run
-	Call, Ret int    `json:"-"`
-	Err       string `json:"err,omitempty"`
-	Commit    string `json:"commit,omitempty"`
-	Result    []int  `json:"result,omitempty"` // query: sorted u; list-pools: n/a
+	Call, Ret int      `json:"-"`
+	Err       string   `json:"err,omitempty"`
+	Commit    string   `json:"commit,omitempty"`
+	Result    []int    `json:"result,omitempty"` // query: sorted u; list-pools: n/a
 	Names     []string `json:"names,omitempty"`
 	batch     []Rec
 	// learned post hoc from the commit object
@@ -106,10 +106,10 @@ func joinSet(m map[string]bool) string {
 
 // c12Model carries the static knowledge the step function needs.
 type c12Model struct {
-	objUs    map[string][]int  // object id -> values
-	predTrue map[string]map[int]bool // predicate -> set of u for which it is true (over all records of the run)
-	poolOf   map[string]string // pool key -> current... (unused)
-	commitObjs map[string]string // commit id -> canonical object set (setup commits, for branch-create)
+	objUs      map[string][]int        // object id -> values
+	predTrue   map[string]map[int]bool // predicate -> set of u for which it is true (over all records of the run)
+	poolOf     map[string]string       // pool key -> current... (unused)
+	commitObjs map[string]string       // commit id -> canonical object set (setup commits, for branch-create)
 }
 
 func (m *c12Model) content(set string) []int {
@@ -328,14 +328,14 @@ func (m *c12Model) step(st *lstate, op *cop) (bool, *lstate) {
 }
 
 type c12Desc struct {
-	Storage string   `json:"storage"`
-	Policy  string   `json:"sched_policy"`
-	Setup   []Op     `json:"setup"`
-	Clients int      `json:"clients"`
-	Ops     []*cop   `json:"concurrent_ops"`
-	Final   []*cop   `json:"final_ops"`
-	Lin     string   `json:"linearizable"`
-	Steps   int      `json:"steps"`
+	Storage string `json:"storage"`
+	Policy  string `json:"sched_policy"`
+	Setup   []Op   `json:"setup"`
+	Clients int    `json:"clients"`
+	Ops     []*cop `json:"concurrent_ops"`
+	Final   []*cop `json:"final_ops"`
+	Lin     string `json:"linearizable"`
+	Steps   int    `json:"steps"`
 }
 
 func runC12(tape *kernel.Tape) *kernel.Outcome {
